@@ -1,22 +1,42 @@
 ---------------------------- MODULE GlyphTrace ----------------------------
-(* Trace specification, refined level (C17): traces of harness/drv_glyph.c recorded from   *)
-(* the small-table build (flavour smallglyph: HIGH = 4, LOW = 2, HASH_SIZE = 8) are        *)
-(* validated step by step against GlyphCache.tla.  One NDJSON line per API call, logged    *)
-(* after the call returned:                                                                *)
+(* Trace specification for the small-table build (C17; flavour smallglyph: HIGH = 4,       *)
+(* LOW = 2, 8 slots).  One NDJSON line per API call of harness/drv_glyph.c, logged after    *)
+(* the call returned:                                                                      *)
 (*   Reset, Keys [H, HIGH, LOW, n, hash]   new execution; the REAL hash of every key       *)
 (*   Freeze / Thaw / Insert / Lookup / Remove / Use   with                                 *)
 (*       ctr = [n_glyphs, n_tombstones, freeze_count], slots = table dump (0 NULL,         *)
 (*       -1 tombstone, key id), mru = keys in list order     (hook H1, _pixman_verif_glyph_dump) *)
 (*       ret / hd / ro: returned pointer non-NULL, serial of the insert call that returned *)
 (*       that pointer, origin+size seen through pixman_glyph_get_extents                   *)
-(*       Use: per glyph what drawing it shows (pix) -- compared with what drawing the      *)
-(*       inserted image showed at insert time                                              *)
-(* Each action first binds the primed variables to the observation and then evaluates the  *)
-(* specification's action as a comparison.  A Crash line (signal, or the alarm that guards *)
-(* every call against a probe loop that never ends) is explained by no action.             *)
+(*       Use: mode 0 no_mask, 1 through a mask, 2 no_mask with every glyph outside the     *)
+(*       destination, 3 no_mask with every glyph clipped away; per glyph what the drawing  *)
+(*       shows (pix)                                                                       *)
+(* Two levels in one trace specification.                                                  *)
+(*                                                                                         *)
+(* (A) mandatory, independent of where entries sit in the table.  Every event must be an   *)
+(*     action of the abstract map GlyphMap.tla under the refinement mapping of             *)
+(*     GlyphCache.tla applied to the LOGGED state (live keys = the keys in the logged      *)
+(*     slots, lru = logged mru, dead = logged n_tombstones): lookup = map; an entry        *)
+(*     vanishes only by Remove of its key or by the outermost Thaw; insert is refused only *)
+(*     when the logged counters say full, and an accepted insert leaves a NULL slot.       *)
+(*     Moreover the dump is consistent (each live key exactly once, counters = numbers of  *)
+(*     glyph / tombstone slots, a NULL slot exists, mru = live keys), n_tombstones moves   *)
+(*     only as removes/inserts/evictions allow, and Thaw follows the water-mark rule on    *)
+(*     the logged counters of the pre-state: nothing happens unless freeze 1 -> 0 and      *)
+(*     n_glyphs + n_tombstones > HIGH; then everything goes if n_tombstones > HIGH, else   *)
+(*     exactly the least recently used go until LOW remain.  Drawing a glyph (any of the   *)
+(*     four modes) makes it most recently used; modes 0 show the copy made at insert time, *)
+(*     modes 2/3 draw nothing.                                                             *)
+(* (B) tracked, not mandatory: the exact layout model of GlyphCache.tla (home slot = real  *)
+(*     hash, upward linear probing, first NULL-or-tombstone, backwards tombstone sweep).   *)
+(*     exact stays TRUE while every logged state is the one GlyphCache's action yields;    *)
+(*     when it first fails a VF:policy note is printed and validation continues with (A)   *)
+(*     alone -- another probing order or table organisation is not a violation of C17.     *)
+(* A Crash line (signal, or the alarm guarding every call against a probe loop that never  *)
+(* ends) is explained by no action.                                                        *)
 EXTENDS GlyphCache, TraceIO
 
-VARIABLE l
+VARIABLES l, exact
 
 KeysEv == TraceLog[2]
 TKeys  == 1..KeysEv.n
@@ -27,7 +47,7 @@ TLow   == KeysEv.LOW
 TNoVal == [o |-> <<>>, pix |-> <<>>, hd |-> 0]
 TVals  == {}
 
-tvars == <<slot, ng, nt, freeze, mru, val, ret, l>>
+tvars == <<slot, ng, nt, freeze, mru, val, ret, l, exact>>
 
 ObsSlots(ev) == [i \in Slots |-> ev.slots[i + 1]]
 
@@ -38,9 +58,15 @@ Observe(ev) ==
     /\ freeze' = ev.ctr[3]
     /\ mru' = ev.mru
 
-(* the invariants of GlyphCache.tla, evaluated on the state the library is in after the call *)
-StateOK == /\ CountsMatch /\ NoDuplicate /\ Reachable /\ NullExists /\ ProbesTerminate
-           /\ MruMatches /\ ValMatches /\ WaterMarks /\ NotStuck
+(* (A) consistency of the logged state -- nothing here depends on Hash or on a probing order *)
+DumpOK == /\ CountsMatch /\ NoDuplicate /\ NullExists /\ MruMatches /\ ValMatches
+          /\ WaterMarks /\ NotStuck
+          /\ Abs!ALruIsLive /\ Abs!AFreeExists
+
+(* (B) bookkeeping: ex = "the layout model explains this step" *)
+Track(ex) ==
+    /\ exact' = (exact /\ ex)
+    /\ (exact /\ ~ex) => PrintT(<<"VF:policy", "glyph table layout departs from the linear-probing model of GlyphCache.tla, first at event", l>>)
 
 Ev(name) == l <= TraceLen /\ TraceLog[l].e = name
 
@@ -48,27 +74,40 @@ TReset ==
     /\ Ev("Reset")
     /\ slot' = [i \in Slots |-> NULLV] /\ ng' = 0 /\ nt' = 0 /\ freeze' = 0 /\ mru' = <<>>
     /\ val' = [k \in Keys |-> NoVal] /\ ret' = Void
+    /\ exact' = TRUE
     /\ l' = l + 1
 
 TKeysEv ==
     /\ Ev("Keys")
     /\ TraceLog[l] = KeysEv            \* one key table per trace file: the constants above are the right ones
-    /\ UNCHANGED <<slot, ng, nt, freeze, mru, val, ret>>
+    /\ UNCHANGED <<slot, ng, nt, freeze, mru, val, ret, exact>>
     /\ l' = l + 1
 
 TFreeze ==
     /\ Ev("Freeze")
     /\ Observe(TraceLog[l])
-    /\ Freeze
-    /\ StateOK'
+    /\ val' = val /\ ret' = Void
+    /\ Abs!AFreeze                                       \* (A)
+    /\ DumpOK'
+    /\ Track(exact /\ Freeze)                            \* (B)
     /\ l' = l + 1
+
+(* the water-mark rule, on the logged counters of the pre-state and the abstract LRU order *)
+ThawRule ==
+    IF freeze = 1 /\ ng + nt > HIGH
+    THEN mru' = IF nt > HIGH THEN <<>>
+                ELSE SubSeq(mru, 1, IF Len(mru) < LOW THEN Len(mru) ELSE LOW)
+    ELSE mru' = mru /\ nt' = nt
 
 TThaw ==
     /\ Ev("Thaw")
     /\ Observe(TraceLog[l])
-    /\ Thaw
-    /\ ~ret'.hang
-    /\ StateOK'
+    /\ val' = [k \in Keys |-> IF k \in LiveKeys' THEN val[k] ELSE NoVal]
+    /\ ret' = Void
+    /\ Abs!AThaw                                         \* (A) survivors are a most-recently-used prefix ...
+    /\ ThawRule                                          \* ... of exactly the length the water marks prescribe
+    /\ DumpOK'
+    /\ Track(exact /\ Thaw)                              \* (B)
     /\ l' = l + 1
 
 TInsert ==
@@ -76,37 +115,44 @@ TInsert ==
     /\ LET ev == TraceLog[l]
            v  == [o |-> ev.o, pix |-> ev.pix, hd |-> ev.hd]
        IN  /\ Observe(ev)
-           /\ Insert(ev.k, v)
-           /\ ~ret'.hang
-           /\ ret'.hit = ev.ret                     \* non-NULL exactly when the specification inserts
-           /\ ev.ret => /\ ev.ro = ev.o             \* the entry shows the origin and size given
+           /\ val' = IF ev.ret THEN [val EXCEPT ![ev.k] = v] ELSE val
+           /\ ret' = IF ev.ret THEN Found(v) ELSE Void
+           /\ Abs!AInsert(ev.k, v)                      \* (A) added (a NULL slot remains) or refused (only when full)
+           /\ ev.ret => /\ ev.ro = ev.o                 \* the entry shows the origin and size given
                         /\ ev.hd > 0
-    /\ StateOK'
+           /\ DumpOK'
+           /\ Track(exact /\ Insert(ev.k, v))           \* (B)
     /\ l' = l + 1
 
 TLookup ==
     /\ Ev("Lookup")
     /\ LET ev == TraceLog[l] IN
        /\ Observe(ev)
-       /\ Lookup(ev.k)
-       /\ ~ret'.hang
-       /\ ret'.hit = ev.ret
-       /\ ev.ret => /\ ret'.v[1].o = ev.ro          \* the live entry: same origin/size ...
-                    /\ ret'.v[1].hd = ev.hd         \* ... and the very object insert returned
-    /\ StateOK'
+       /\ val' = val
+       /\ ret' = IF ev.ret THEN Found(val[ev.k]) ELSE Void
+       /\ Abs!ALookup(ev.k)                             \* (A) non-NULL exactly for a live key, nothing changes
+       /\ ev.ret => /\ val[ev.k].o = ev.ro              \* the live entry: same origin/size ...
+                    /\ val[ev.k].hd = ev.hd             \* ... and the very object insert returned
+       /\ DumpOK'
+       /\ Track(exact /\ Lookup(ev.k))                  \* (B)
     /\ l' = l + 1
 
 TRemove ==
     /\ Ev("Remove")
-    /\ Observe(TraceLog[l])
-    /\ Remove(TraceLog[l].k)
-    /\ ~ret'.hang
-    /\ StateOK'
+    /\ LET ev == TraceLog[l] IN
+       /\ Observe(ev)
+       /\ val' = [val EXCEPT ![ev.k] = NoVal]
+       /\ ret' = Void
+       /\ Abs!ARemove(ev.k)                             \* (A) that entry goes (if present), no other
+       /\ DumpOK'
+       /\ Track(exact /\ Remove(ev.k))                  \* (B)
     /\ l' = l + 1
 
 (* a drawing call with a list of glyphs = Use of each, in list order *)
 RECURSIVE UseAll(_, _)
 UseAll(m, ks) == IF ks = <<>> THEN m ELSE UseAll(<<Head(ks)>> \o Without(m, Head(ks)), Tail(ks))
+
+Blank(pix) == \A i \in DOMAIN pix : pix[i] = <<0, 0>>
 
 TUse ==
     /\ Ev("Use")
@@ -114,19 +160,22 @@ TUse ==
        /\ ~Has(ev, "missing")
        /\ Observe(ev)
        /\ \A i \in DOMAIN ev.ks :
-             /\ LookupIdx(slot, ev.ks[i]) >= 0                       \* Use's precondition
+             /\ ev.ks[i] \in LiveKeys                                \* Use's precondition
              /\ ev.got[i].ro = val[ev.ks[i]].o
              /\ (ev.mode = 0) => ev.got[i].pix = val[ev.ks[i]].pix   \* the copy made at insert time, unchanged
-       /\ mru' = UseAll(mru, ev.ks)
+             /\ (ev.mode \in {2, 3}) => Blank(ev.got[i].pix)         \* outside / clipped away: nothing drawn
+       /\ mru' = UseAll(mru, ev.ks)                     \* (A) AUse of each: drawn glyphs become most recently used,
+       /\ LiveKeys' = LiveKeys                          \*     whether or not a pixel of them reached the destination
+       /\ ng' = ng /\ nt' = nt /\ freeze' = freeze
+       /\ val' = val
        /\ ret' = Found(val[ev.ks[Len(ev.ks)]])
-       /\ UNCHANGED val
-       /\ slot' = slot /\ ng' = ng /\ nt' = nt /\ freeze' = freeze
-    /\ StateOK'
+       /\ DumpOK'
+       /\ Track(exact /\ slot' = slot)                  \* (B)
     /\ l' = l + 1
 
 TInit == /\ slot = [i \in Slots |-> NULLV] /\ ng = 0 /\ nt = 0 /\ freeze = 0 /\ mru = <<>>
          /\ val = [k \in Keys |-> NoVal] /\ ret = Void
-         /\ l = 1
+         /\ l = 1 /\ exact = TRUE
 
 TNext == TReset \/ TKeysEv \/ TFreeze \/ TThaw \/ TInsert \/ TLookup \/ TRemove \/ TUse
 
